@@ -324,15 +324,18 @@ yep:
 }
 
 DEFUN size_t
-__ordtostr(char *buf, size_t bsz)
+__ordtostr(char *buf, size_t bsz, size_t ndigits)
 {
 	char *p = buf;
 
-	if (UNLIKELY(bsz < 2)) {
+	if (UNLIKELY(bsz < 2 || !ndigits)) {
 		return 0;
 	}
-	/* assumes the actual number is printed in BUF already, 2 digits long */
-	if (UNLIKELY(p[-2] == '1')) {
+	/* the actual number is printed in BUF already, NDIGITS long,
+	 * whatever is in front of that is none of our business */
+	if (ndigits < 2U) {
+		;
+	} else if (UNLIKELY(p[-2] == '1')) {
 		/* must be 11, 12, or 13 then */
 		goto teens;
 	} else if (p[-2] == '0') {
